@@ -99,11 +99,96 @@ def _has_q(t, _memo={}):
 def _solver(hyps, goals_negated, timeout, seed=None):
     s = z3.Solver()
     s.set('timeout', timeout)
+    if os.environ.get('PYVC_MBQI', '0') == '0':
+        # proofs only need E-matching; model-based quantifier instantiation is where z3 loops on our VCs, and
+        # counter-models are obtained from the quantifier-free relaxation anyway
+        s.set('smt.mbqi', False)
     if seed is not None:
         s.set('random_seed', seed)
     s.add(*hyps)
     s.add(goals_negated)
     return s
+
+
+def _skolemize(goal, sk):
+    """positive-polarity universal quantifiers of the goal replaced by fresh constants (sound for proving)"""
+    if z3.is_quantifier(goal) and goal.is_forall():
+        vs = [z3.Const(f'sk!{len(sk)}!{goal.var_name(i)}', goal.var_sort(i)) for i in range(goal.num_vars())]
+        sk.extend(vs)
+        return _skolemize(z3.substitute_vars(goal.body(), *reversed(vs)), sk)
+    if z3.is_and(goal):
+        return z3.And(*[_skolemize(c, sk) for c in goal.children()])
+    if z3.is_implies(goal):
+        return z3.Implies(goal.arg(0), _skolemize(goal.arg(1), sk))
+    if z3.is_app_of(goal, z3.Z3_OP_ITE) and z3.is_bool(goal):
+        return z3.If(goal.arg(0), _skolemize(goal.arg(1), sk), _skolemize(goal.arg(2), sk))
+    return goal
+
+
+def _index_terms(fs, limit=48):
+    """ground integer terms used as arguments of uninterpreted functions / array reads: the relevant instances"""
+    out, seen = [], set()
+
+    def ground(t):
+        if z3.is_var(t):
+            return False
+        return all(ground(c) for c in t.children())
+
+    def walk(t, bound):
+        if t.get_id() in seen:
+            return
+        seen.add(t.get_id())
+        if z3.is_quantifier(t):
+            return
+        if z3.is_app(t):
+            k = t.decl().kind()
+            if k in (z3.Z3_OP_UNINTERPRETED, z3.Z3_OP_SELECT) and t.num_args() > 0:
+                for a in t.children():
+                    if a.sort() == z3.IntSort() and ground(a) and not any(a.eq(o) for o in out):
+                        out.append(a)
+            for c in t.children():
+                walk(c, bound)
+    for f in fs:
+        walk(f, False)
+    return out[:limit]
+
+
+def _boost(hyps, goal, wide=True):
+    """Quantifier-free strengthening by relevant instantiation: the goal is skolemized and every universally
+    quantified hypothesis is replaced by its instances at the ground index terms of the problem (plus neighbours).
+    Instances of hypotheses are consequences of them, so `unsat` of the boosted query is a proof."""
+    sk = []
+    g = _skolemize(goal, sk)
+    qf = [h for h in hyps if not _has_q(h)]
+    quant = [h for h in hyps if _has_q(h)]
+    terms = list(sk) + _index_terms([g] + (qf if wide else []), 48 if wide else 16)
+    extra = []
+    for t in list(terms):
+        for dlt in (1, -1):
+            extra.append(z3.simplify(t + dlt))
+    terms = terms + [t for t in extra if not any(t.eq(o) for o in terms)]
+    terms = terms[:80]
+    insts = []
+    for q in quant:
+        for conj in (q.children() if z3.is_and(q) else [q]):
+            if z3.is_quantifier(conj) and conj.is_forall():
+                nv = conj.num_vars()
+                if nv == 1:
+                    insts += [z3.substitute_vars(conj.body(), t) for t in terms]
+                elif nv == 2:
+                    short = terms[:14]
+                    insts += [z3.substitute_vars(conj.body(), a, b) for a in short for b in short]
+            elif not _has_q(conj):
+                insts.append(conj)
+            elif z3.is_implies(conj) and not _has_q(conj.arg(0)) and z3.is_quantifier(conj.arg(1)) and conj.arg(1).num_vars() == 1:
+                insts += [z3.Implies(conj.arg(0), z3.substitute_vars(conj.arg(1).body(), t)) for t in terms]
+            elif z3.is_app_of(conj, z3.Z3_OP_ITE):
+                for br, cond in ((conj.arg(1), conj.arg(0)), (conj.arg(2), z3.Not(conj.arg(0)))):
+                    if z3.is_quantifier(br) and br.num_vars() == 1:
+                        insts += [z3.Implies(cond, z3.substitute_vars(br.body(), t)) for t in terms]
+                    elif not _has_q(br):
+                        insts.append(z3.Implies(cond, br))
+    return qf + insts, g
 
 
 def _relaxed(obs_list):
@@ -142,8 +227,20 @@ def _solve(i):
         r = _solver(ob.pc, neg, max(1000, timeout // 4)).check()
         if r == z3.unsat:
             return done(status='unsat', note='proved without the definitional equations')
-    # 3. the full query
+    # 3. quantifier-free after relevant instantiation (skolemized goal, hypotheses instantiated at the problem's
+    #    index terms): E-matching misses instances when index terms are not syntactically aligned
     full = list(ob.pc) + list(ob.defs)
+    if any(_has_q(h) for h in full) or _has_q(ob.goal):
+        try:
+            for wide in (False, True):      # first only the goal's own index terms (small query), then all of them
+                bh, bg = _boost(full, ob.goal, wide)
+                if not _has_q(bg):
+                    r = _solver(bh, z3.Not(bg), max(3000, timeout // (2 if wide else 5))).check()
+                    if r == z3.unsat:
+                        return done(status='unsat', note='proved after relevant instantiation (quantifier-free)')
+        except z3.Z3Exception:
+            pass
+    # 4. the full query
     s = _solver(full, neg, timeout)
     r = s.check()
     if r == z3.unknown and _CFG.get('cvc5', True):
@@ -189,13 +286,24 @@ def _batch(idxs):
         ok = lambda note: [(i, {'status': 'unsat', 'backend': 'z3', 'ms': int(1000 * (time.time() - t0)) // len(idxs),
                                 'batched': len(idxs), 'note': note}) for i in idxs]
         qf = _relaxed(obs)
+        full = list(obs[0].pc) + list(obs[0].defs)
+        relaxed_sat = False
         if qf is not None and not any(_has_q(o.goal) for o in obs):
             r = _solver(qf, neg, max(2000, _CFG['timeout'] // 4)).check()
             if r == z3.unsat:
                 return ok('proved without the quantified hypotheses')
-            if r == z3.sat:
-                return [_solve(i) for i in idxs]      # some member probably fails: do not try the full conjunction
-        if _solver(list(obs[0].pc) + list(obs[0].defs), neg, _CFG['timeout']).check() == z3.unsat:
+            relaxed_sat = r == z3.sat
+        if qf is not None or any(_has_q(o.goal) for o in obs):
+            try:
+                bh, bg = _boost(full, z3.And(*[o.goal for o in obs]), False)
+                if not _has_q(bg) and _solver(bh, z3.Not(bg), max(3000, _CFG['timeout'] // 4)).check() == z3.unsat:
+                    return ok('proved after relevant instantiation (quantifier-free)')
+            except z3.Z3Exception:
+                pass
+            return [_solve(i) for i in idxs]          # quantified: members one by one rather than the full conjunction
+        if relaxed_sat:
+            return [_solve(i) for i in idxs]
+        if _solver(full, neg, _CFG['timeout']).check() == z3.unsat:
             return ok('')
     return [_solve(i) for i in idxs]
 
